@@ -230,6 +230,9 @@ fn run_scenario(sc: &Value, idx: usize, bin: &Path, scratch: &Path, local: bool)
         std::os::unix::fs::symlink("points/nowhere", true_fixture.join("dangling link")).unwrap();
     }
     fs::write(d.join("state/plan.json"), json!(plan).to_string()).unwrap();
+    // what the daemon holds besides this run's resources: a stopped container, a tagged and a dangling image, a volume
+    fs::create_dir_all(d.join("state/foreign")).unwrap();
+    for f in ["container", "image", "dangling-image", "volume"] { fs::write(d.join("state/foreign").join(f), "not created by this run").unwrap(); }
     fs::write(d.join("scenario.json"), json!({"script": script, "cfg": cfg}).to_string()).unwrap();
     let fixture_root = if local { d.join("proj/fixture app") } else { d.join("proj") };
     let fixture_before = (fsnap::snapshot(&fixture_root), fsnap::snapshot(&d.join("elsewhere")));
@@ -431,6 +434,9 @@ fn run_scenario(sc: &Value, idx: usize, bin: &Path, scratch: &Path, local: bool)
                 cmds.push(json!({"cmd": "volume-rm", "arg": if names == vols && !vols.is_empty() { "vols".to_string() } else { format!("{names:?}") }}));
             }
             "sbom" => cmds.push(json!({"cmd": "sbom", "arg": own(&image, argv.get(2).map_or("", String::as_str))})),
+            // looking at the daemon changes nothing; what a host-wide prune did to the daemon's other
+            // resources is judged on the stand-in's world after the run
+            "ps" | "prune" => {}
             other => p16.push(format!("unexpected external command {other}: {argv:?}")),
         }
     }
@@ -450,6 +456,9 @@ fn run_scenario(sc: &Value, idx: usize, bin: &Path, scratch: &Path, local: bool)
     }
     let temps_left = fs::read_dir(d.join("tmp")).map(|rd| rd.count()).unwrap_or(0);
     if temps_left != 0 { p16.push(format!("{temps_left} temporary directories left behind in TMPDIR")); }
+    for f in ["container", "image", "dangling-image", "volume"] {
+        if !d.join("state/foreign").join(f).exists() { p16.push(format!("a Docker resource the run did not create is gone: the daemon's other {f}")); }
+    }
     let fixture_after = (fsnap::snapshot(&fixture_root), fsnap::snapshot(&d.join("elsewhere")));
     if fixture_before != fixture_after {
         let mut diff = fsnap::diff(&fixture_before.0, &fixture_after.0);
